@@ -75,7 +75,7 @@ _p("C06", "other",
 PENDING.pop("C06", None)
 
 _p("C03", "other",
-   "Narrow structural claim for a numerical property: qubit operands reach the emulator's index arithmetic only through resolve_qubit (taint); every call of a gate's ideal unitary passes the classical arguments splatted positionally; classical and quantum arguments are separated by pairing definition parameters with statement arguments positionally and gates are applied in serialisation order; the backend only receives circuits that passed all three normalising passes and skips gates without a unitary. The bit-twiddling matrix product itself is declined (numerical).")
+   "Narrow structural claim for a numerical property: qubit operands reach the emulator's index arithmetic only through resolve_qubit (taint); every call of a gate's ideal unitary passes the classical arguments splatted positionally; classical and quantum arguments are separated by pairing definition parameters with statement arguments positionally and gates are applied in serialisation order; the backend only receives circuits that passed all three normalising passes and skips gates without a unitary. The arithmetic of the bit-twiddling matrix product is declined (numerical); its wiring is decided by C03.14.")
 PENDING.pop("C03", None)
 
 _p("C18", "other",
@@ -260,9 +260,9 @@ for _pid, _txt in ADDENDA9.items():
 
 ADDENDA10 = {
     "C01": " C01.17 the reserved words are consulted; C01.18 positive type tests in the value writer.",
-    "C03": " C03.12 sense of the distinct-qubits refusal.",
+    "C03": " C03.12 sense of the distinct-qubits refusal; C03.13 the address of the walk is a balanced stack and the start / end tests of trace_statements have the stated sense; C03.14 shape of the sparse product (row decoded from the output index, column encoding the input index, same qubit order on both sides, running bit, cleared mask, buffers exchanged and cleared) -- the arithmetic is still not evaluated.",
     "C06": " C06.20 _depends_on_parameter walks while there is a link; C06.21 absent slice bounds get their defaults.",
-    "C08": " C08.20 the trace walk returns early only without traces.",
+    "C08": " C08.20 the trace walk returns early only without traces; C08.21 the address of the walk is a balanced stack (every yield and pop after exactly one push, every push popped before the exit, counter and last component move together) and the start / end tests of trace_statements have the stated sense.",
     "C09": " C09.15 the subcircuit builder writes the count it is given.",
     "C13": " C13.24 condition under which a made-up definition is busy; C13.25 the relinker passes every constructor field.",
     "C14": " C14.17 upper bound compared when the size is known; C14.18 absent slice bounds get their defaults.",
